@@ -47,6 +47,41 @@ _PROP_RE = re.compile(r'Error: (Action property|Temporal properties|Property) ?(
 _POST_RE = re.compile(r'Error: Postcondition (\S+) ')
 
 
+def _printed_tuples(text):
+    """Values printed by PrintT(<<"TAG", ...>>).  TLC wraps long values over several
+    lines (and then writes `<< "TAG",`), so match brackets over the whole output and
+    re-join each value on one line in the compact form `<<"TAG", 1, {"A", "B"}>>`."""
+    out = []
+    for m in re.finditer(r'(?m)^<< ?"', text):
+        k = m.start()
+        depth, j, instr = 0, k, False
+        while j < len(text):
+            c = text[j]
+            if instr:
+                if c == '\\':
+                    j += 1
+                elif c == '"':
+                    instr = False
+            elif c == '"':
+                instr = True
+            elif text.startswith('<<', j):
+                depth += 1
+                j += 1
+            elif text.startswith('>>', j):
+                depth -= 1
+                j += 1
+                if depth == 0:
+                    break
+            j += 1
+        chunk = ' '.join(x.strip() for x in text[k:j + 1].splitlines())
+        chunk = re.sub(r'<< ', '<<', chunk)
+        chunk = re.sub(r' >>', '>>', chunk)
+        chunk = re.sub(r'\{ ', '{', chunk)
+        chunk = re.sub(r' \}', '}', chunk)
+        out.append(chunk)
+    return out
+
+
 def _spec_path_dirs():
     return [SPEC, os.path.join(SPEC, 'mc'), os.path.join(SPEC, 'gen'), os.path.join(SPEC, 'trace')]
 
@@ -118,8 +153,7 @@ def run_tlc(module, cfg=None, workers=1, env=None, extra=(), timeout=1800, scrat
             res.violated = 'POST:' + m.group(1)
         if line.startswith('Error: Action property') or line.startswith('Error: Temporal properties'):
             res.violated = res.violated or 'PROPERTY'
-        if line.startswith('<<"'):
-            res.printed.append(line)
+    res.printed = _printed_tuples(p.stdout)
     if res.violated is None and p.returncode != 0:
         res.error = p.stdout[-4000:]
     if res.error and not allow_violation:
